@@ -594,7 +594,10 @@ func (i *Interface) Purge(ctx context.Context, q *query.Query) (int, error) {
 		return 0, ErrReadOnly
 	}
 
-	return db.Purge(ctx, q, i.options.Local, i.options.Internal)
+	n, err := db.Purge(ctx, q, i.options.Local, i.options.Internal)
+	// Purged records may still sit in the cache (which cannot be queried): clear it.
+	i.ClearCache()
+	return n, err
 }
 
 // Subscribe subscribes to updates matching the given query.
